@@ -51,6 +51,14 @@ class PathCtx:
             self.failures.append((kind, _j(detail), None, None))
         return ok
 
+    def record_failure(self, kind, detail, values):
+        """a failed obligation decided outside the path solver (odex identity prover): values = model of the counterexample"""
+        self.counts[kind] += 1
+        if kind in self.skip:
+            return
+        self.failures.append((kind, _j(detail), dict(values or {}), symx.ENG.decisions() if symx.ENG.mode == 'sym' else None))
+        self.skip.add(kind)
+
     def fail(self, kind, detail=None):
         """unconditional failure on this path (structural problem not depending on numbers)"""
         return self.require(kind, False, detail)
@@ -190,7 +198,7 @@ def explore_config(args):
             for (kind, detail, values, decisions) in h.failures:
                 failed_kinds.add(kind)
                 conf = replay_failure(mod, cfg, kind, values, decisions)
-                res['failures'].append({'kind': kind, 'detail': detail, 'values': {k: str(v) for k, v in values.items()},
+                res['failures'].append({'kind': kind, 'detail': detail, 'values': {k: str(v) for k, v in (values or {}).items()},
                                         'decisions': decisions, 'confirmed': conf})
                 if conf.get('reproduced') and match_known(known, prop, cfg, kind) is None:
                     stop_early = True    # a new, replayed violation: no need to finish this configuration
@@ -235,6 +243,11 @@ def explore_config(args):
 
 def replay_failure(mod, cfg, kind, values, decisions):
     """concrete replay: does the real code, on floats, with the model's draws, violate `kind`?"""
+    if hasattr(mod, 'replay_concrete'):
+        try:
+            return mod.replay_concrete(cfg, kind, values, decisions)
+        except Exception as e:
+            return {'reproduced': False, 'why': 'replay_concrete raised %r' % (e,)}
     h, out, err = concrete_run(mod, cfg, values, decisions)
     if err is not None:
         return {'reproduced': False, 'why': err}
